@@ -420,10 +420,24 @@ func libDecodeOnce(bs []byte) (a amf0.Amf0, class string) {
 // libDecode decodes bs and measures how many bytes the decoder consumed: the length of the shortest
 // prefix that still decodes (success only ever depends on the bytes read, so success is monotone in
 // the prefix length and a binary search finds the boundary; both sides of it are re-checked).
+// amfInputAliased: decoded values that changed when the buffer they were decoded from was overwritten afterwards
+// (reported by amfCheckRetained): a decoder must copy what it keeps — the caller reuses its read buffer for the
+// next message.
+var amfInputAliased []string
+
 func libDecode(bs []byte) amfDec {
-	a, class := libDecodeOnce(bs)
+	// decode from a private buffer, note the value, scribble over the buffer, look at the value again
+	buf := append([]byte(nil), bs...)
+	a, class := libDecodeOnce(buf)
 	if class != "ok" {
 		return amfDec{class: class}
+	}
+	before := amfStr(a)
+	for i := range buf {
+		buf[i] ^= 0xA5
+	}
+	if after := amfStr(a); after != before && len(amfInputAliased) < 3 {
+		amfInputAliased = append(amfInputAliased, fmt.Sprintf("decoded from %s: %s — after the input buffer was overwritten: %s", h.Trunc(h.Hex(bs), 120), h.Trunc(before, 160), h.Trunc(after, 160)))
 	}
 	lo, hi := 0, len(bs) // invariant: prefix lo fails (0 always fails), prefix hi succeeds
 	for hi-lo > 1 {
@@ -487,6 +501,10 @@ func amfCheckRetained(c *h.Ctx) {
 				h.Trunc(h.Hex(k.b), 120), h.Trunc(h.Hex([]byte(k.snap)), 120))
 		}
 	}
+	for _, m := range amfInputAliased {
+		c.Hold(false, "decode.value_not_aliased_to_input", m, "changed", "unchanged")
+	}
+	amfInputAliased = nil
 	c.Note(fmt.Sprintf("retained marshalled slices re-checked: %d", len(amfRing)))
 	amfRing, amfRingBytes = nil, 0
 }
